@@ -46,6 +46,10 @@ class EstimateAlphaBeta(Contract):
             return
         nf = ms.count
         pos = ms.pos
+        # the observations left out are exactly the zeros (every positive one, however small, takes part)
+        jz = cx.fresh("j_obs", "int")
+        cx.oblige("post.zero_ignored.exactly_the_zeros", T.implies(T.land(T.ge(jz, 0), T.lt(jz, self.n)), T.eq(T.zb(ms.mask_get((jz,))), T.ne(self.x.uf(jz), 0))), "post",
+                  "observation j is used in the regression iff x_j != 0")
         xs = lambda k: mathfn.apply(cx, "log10", self.x.uf(pos(T.zi(k))))
         ps = lambda k: mathfn.apply(cx, "log10", T.neg(mathfn.apply(cx, "log", T.sub(1, mathfn.m_pow(cx, self.p.uf(pos(T.zi(k))), T.div(1, self.delta.t))))))
         wf = lambda k: self.w.uf(pos(T.zi(k)))
@@ -109,6 +113,18 @@ class EstimateAlphaBeta(Contract):
         n = len(x)
         p = (np.arange(1, n + 1) - 0.5) / n
         worst = 0.0
+        # zeros are left out, tiny positive observations are not: compare with the regression over x != 0
+        x2 = np.r_[0.0, 0.0, 3e-10, 2e-9, 8e-9, x[5:]]
+        w2 = 0.5 + rng.random(n)
+        al, be = E._estimate_alpha_beta(2.0, x2.copy(), p.copy(), w2.copy())
+        keep = x2 != 0
+        ps2 = np.log10(-np.log(1 - p[keep] ** (1 / 2.0)))
+        A2 = np.c_[np.ones(keep.sum()), ps2] * np.sqrt(w2[keep])[:, None]
+        sol2 = np.linalg.lstsq(A2, np.log10(x2[keep]) * np.sqrt(w2[keep]), rcond=None)[0]
+        dev0 = max(abs(np.log10(al) - sol2[0]), abs(1 / be - sol2[1]))
+        if not dev0 <= 1e-8:
+            return {"confirmed": True, "detail": f"sample with two zeros and three observations below 1e-8: (log10 alpha, 1/beta) = ({np.log10(al)!r}, {1 / be!r}), "
+                    f"weighted regression over the non-zero observations gives ({sol2[0]!r}, {sol2[1]!r})"}
         for scale in (1.0, 3.0, 1.0 / n):
             w = scale * (0.5 + rng.random(n))
             delta = 2.0
